@@ -301,7 +301,15 @@ impl<'a> C2B<'a> {
     fn and(&mut self, cs: &[usize]) -> usize {
         let mut cs = cs.to_vec();
         // a true node below an and-node, now and then listed twice (the same child index twice is legal in the format)
-        if self.true_nodes && self.rng.chance(0.15) { let t = self.push("A 0".into(), 0); cs.push(t); if self.rng.chance(0.3) { cs.push(t); } }
+        if self.true_nodes && self.rng.chance(0.15) {
+            let mut t = self.push("A 0".into(), 0);
+            // ... now and then wrapped in an or-node whose alternatives are all constants: or(true) / or(true, false)
+            if self.rng.chance(0.25) {
+                if self.rng.chance(0.5) { let f = self.push("O 0 0".into(), 0); t = self.push(format!("O 0 2 {} {}", t, f), 2); } else { t = self.push(format!("O 0 1 {}", t), 1); }
+            }
+            cs.push(t);
+            if self.rng.chance(0.3) { cs.push(t); }
+        }
         if self.rng.chance(0.3) { self.rng.shuffle(&mut cs); }
         let s = format!("A {} {}", cs.len(), cs.iter().map(|c| c.to_string()).collect::<Vec<_>>().join(" "));
         self.push(s, cs.len())
